@@ -686,7 +686,9 @@ pub fn drive_tape(
                 config.cases = n;
                 config.failure_persistence = None;
                 config.rng_seed = RngSeed::Fixed(seed);
-                config.max_shrink_iters = 20_000;
+                // (a case of a `huge_*` sub-check costs up to 0.1 s: fewer shrink steps, a less minimal replay; the
+                // bound limits minimisation only, never a verdict)
+                config.max_shrink_iters = if sub.name.starts_with("huge") { 300 } else { 20_000 };
                 config.max_shrink_time = 0;
                 config.verbose = 0;
                 config.source_file = None;
